@@ -229,6 +229,13 @@ pub proof fn lemma_filter_pointwise<A>(s: Seq<A>, t: Seq<A>, ps: spec_fn(A) -> b
 		assert(t.drop_last().push(t.last()) =~= t);
 	}
 }
+// b is front ++ back, said index by index (kept in this form: equations such as b == b.filter(p) + b.filter(np) or
+// b.filter(p) == b.take(m) make the sequence axioms of vstd loop)
+pub open spec fn is_concat<A>(b: Seq<A>, front: Seq<A>, back: Seq<A>) -> bool {
+	&&& b.len() == front.len() + back.len()
+	&&& forall|q: int| 0 <= q < front.len() ==> #[trigger] b[q] == front[q]
+	&&& forall|q: int| front.len() <= q < b.len() ==> #[trigger] b[q] == back[q - front.len()]
+}
 // the length of the longest prefix of s whose elements all satisfy p
 pub proof fn lemma_front_count<A>(s: Seq<A>, p: spec_fn(A) -> bool) -> (m: int)
 	ensures 0 <= m <= s.len(), forall|i: int| 0 <= i < m ==> p(#[trigger] s[i]), m < s.len() ==> !p(s[m]),
@@ -248,7 +255,7 @@ pub proof fn lemma_filter_partitioned<A>(s: Seq<A>, p: spec_fn(A) -> bool, np: s
 	requires
 		forall|x: A| #[trigger] np(x) == !p(x),
 		partitioned_at(s, p, m),
-	ensures s.filter(p) == s.take(m), s.filter(np) == s.skip(m),
+	ensures s.filter(p).len() == m, is_concat(s, s.filter(p), s.filter(np)),
 {
 	let h = s.take(m);
 	let t = s.skip(m);
@@ -276,7 +283,7 @@ pub proof fn lemma_import_key_classes()
 pub proof fn lemma_sorted_imports_first(a: Seq<Declaration>, b: Seq<Declaration>)
 	requires stably_sorted_by_key(a, b, import_first_key()),
 	ensures
-		b == a.filter(is_import_decl()) + a.filter(not_import_decl()),
+		is_concat(b, a.filter(is_import_decl()), a.filter(not_import_decl())),
 		partitioned_at(b, is_import_decl(), a.filter(is_import_decl()).len() as int),
 {
 	let key = import_first_key();
@@ -292,7 +299,7 @@ pub proof fn lemma_sorted_imports_first(a: Seq<Declaration>, b: Seq<Declaration>
 pub proof fn lemma_partitioned_by_sort(b: Seq<Declaration>)
 	requires sorted_by_key(b, import_first_key()),
 	ensures
-		b == b.filter(is_import_decl()) + b.filter(not_import_decl()),
+		is_concat(b, b.filter(is_import_decl()), b.filter(not_import_decl())),
 		partitioned_at(b, is_import_decl(), b.filter(is_import_decl()).len() as int),
 {
 	let key = import_first_key();
@@ -304,7 +311,6 @@ pub proof fn lemma_partitioned_by_sort(b: Seq<Declaration>)
 	}
 	assert(partitioned_at(b, imp, m));
 	lemma_filter_partitioned(b, imp, nimp, m);
-	assert(b =~= b.take(m) + b.skip(m));
 }
 
 // the keys the code looks imports up in are the module paths: what get_key_offset found is the oracle's target
@@ -466,4 +472,90 @@ pub proof fn lemma_order_start(v: Seq<(usize, usize)>, ms: Modules, a: int, cur:
 {
 	assert(v.take(0).len() == 0);
 	assert(cur.skip(0) =~= cur);
+}
+
+// ---- sanity of the oracle ----------------------------------------------------------------------------------------------------
+// an importer lists each of its importees exactly once, however often it imports it: order_for(v, a) has no repetition and
+// holds exactly the b with (a, b) in the enumeration
+pub proof fn theorem_each_importee_once(v: Seq<(usize, usize)>, a: usize)
+	requires v.no_duplicates(),
+	ensures
+		order_for(v, a as int).no_duplicates(),
+		forall|b: usize| #[trigger] order_for(v, a as int).contains(b) <==> v.contains((a, b)),
+	decreases v.len(),
+{
+	if v.len() > 0 {
+		let w = v.drop_last();
+		let e = v.last();
+		assert forall|i: int, j: int| 0 <= i < w.len() && 0 <= j < w.len() && i != j implies w[i] != w[j] by {
+			assert(w[i] == v[i] && w[j] == v[j]);
+		}
+		theorem_each_importee_once(w, a);
+		let rest = order_for(w, a as int);
+		let o = order_for(v, a as int);
+		assert forall|x: (usize, usize)| v.contains(x) <==> (w.contains(x) || x == e) by {
+			if v.contains(x) {
+				let i = choose|i: int| 0 <= i < v.len() && v[i] == x;
+				if i < w.len() { assert(w[i] == x); }
+			}
+			if w.contains(x) {
+				let i = choose|i: int| 0 <= i < w.len() && w[i] == x;
+				assert(v[i] == x);
+			}
+			assert(v[v.len() - 1] == e);
+		}
+		if e.0 == a {
+			assert(o == seq![e.1] + rest);
+			assert(!w.contains(e)) by {
+				if w.contains(e) {
+					let i = choose|i: int| 0 <= i < w.len() && w[i] == e;
+					assert(v[i] == v[v.len() - 1]);
+				}
+			}
+			assert(!rest.contains(e.1));
+			assert forall|i: int, j: int| 0 <= i < o.len() && 0 <= j < o.len() && i != j implies o[i] != o[j] by {
+				if i > 0 { assert(o[i] == rest[i - 1]); assert(rest.contains(o[i])); }
+				if j > 0 { assert(o[j] == rest[j - 1]); assert(rest.contains(o[j])); }
+			}
+			assert forall|b: usize| #[trigger] o.contains(b) <==> v.contains((a, b)) by {
+				if o.contains(b) {
+					let i = choose|i: int| 0 <= i < o.len() && o[i] == b;
+					if i > 0 { assert(rest[i - 1] == b); assert(rest.contains(b)); }
+				}
+				if rest.contains(b) {
+					let i = choose|i: int| 0 <= i < rest.len() && rest[i] == b;
+					assert(o[i + 1] == b);
+				}
+				assert(o[0] == e.1);
+			}
+		} else {
+			assert(o == rest);
+		}
+	} else {
+		assert forall|b: usize| !(#[trigger] order_for(v, a as int).contains(b)) by { }
+	}
+}
+// a module with no resolved import of another module sees nothing but its own items
+pub proof fn theorem_nothing_imported_nothing_visible(ms: Modules, v: Seq<(usize, usize)>, a: int, cur: Seq<Declaration>)
+	requires expanded(ms, a, order_for(v, a), cur), forall|e: (usize, usize)| v.contains(e) ==> e.0 != a,
+	ensures own_ok(ms, a, cur),
+	decreases v.len(),
+{
+	lemma_no_edge_no_order(v, a);
+	assert(cur.skip(0) =~= cur);
+}
+pub proof fn lemma_no_edge_no_order(v: Seq<(usize, usize)>, a: int)
+	requires forall|e: (usize, usize)| v.contains(e) ==> e.0 != a,
+	ensures order_for(v, a).len() == 0,
+	decreases v.len(),
+{
+	if v.len() > 0 {
+		assert(v.contains(v[v.len() - 1]));
+		assert forall|e: (usize, usize)| v.drop_last().contains(e) implies e.0 != a by {
+			let i = choose|i: int| 0 <= i < v.drop_last().len() && v.drop_last()[i] == e;
+			assert(v[i] == e);
+			assert(v.contains(e));
+		}
+		lemma_no_edge_no_order(v.drop_last(), a);
+	}
 }
